@@ -89,8 +89,13 @@ func uKey(x, id []byte) []byte {
 
 // uniquePfx derives the unique-LPM prefix of an object injectively from its
 // primary key: the key bytes, zero padded to 3 bytes, prefix length 8*len.
+const ulpmBytes = 4 // width of the unique LPM universe: primary keys have at most 4 bytes
+
 func uniquePfx(id []byte) ([]byte, uint16) {
-	d := make([]byte, 3)
+	if len(id) > ulpmBytes {
+		panic("harness: primary key longer than the unique LPM universe")
+	}
+	d := make([]byte, ulpmBytes)
 	copy(d, id)
 	return d, uint16(8 * len(id))
 }
@@ -205,7 +210,7 @@ var (
 type Query struct {
 	Idx  int    `json:"i"`           // idxID..idxRev
 	Kind int    `json:"k"`           // qGet..qAll
-	Key  []byte `json:"key,omitempty"` // raw key / prefix / bound for part indexes; 3 data bytes for ulpm
+	Key  []byte `json:"key,omitempty"` // raw key / prefix / bound for part indexes; up to 4 data bytes for ulpm
 	ID   []byte `json:"id,omitempty"`  // with Comp: builds a composite "u" key Key ++ ID ++ len(ID)
 	Comp bool   `json:"c,omitempty"`
 	Pfx  P      `json:"p,omitempty"` // lpm query prefix
@@ -252,17 +257,17 @@ func (q Query) rawKey() []byte {
 }
 
 func (q Query) ulpmData() ([]byte, int) {
-	d := make([]byte, 3)
+	d := make([]byte, ulpmBytes)
 	copy(d, q.Key)
 	l := q.Len
 	if l < 0 {
 		l = 0
 	}
-	if l > 24 {
-		l = 24
+	if l > 8*ulpmBytes {
+		l = 8 * ulpmBytes
 	}
 	// mask
-	for i := 0; i < 3; i++ {
+	for i := 0; i < ulpmBytes; i++ {
 		switch {
 		case l >= (i+1)*8:
 		case l <= i*8:
